@@ -4,9 +4,4 @@ package secp256k1
 
 func init() {
 	VerifScalarPow2k = func(s, a *Scalar, k uint) *Scalar { return s.pow2k(a, k) }
-	VerifHalfNSat = func() [4]uint64 { return halfNSat }
-}
-
-func init() {
-	VerifScalarReduceSaturated = func(dst, src *[4]uint64) uint64 { return reduceSaturated(dst, src) }
 }
